@@ -299,9 +299,6 @@ pub fn run(ctx: &Ctx) {
     let base = some_hs_names(0);
     let ciphers: Vec<CipherKind> = if thorough { crate::refcrypto::CIPHERS.to_vec() } else { vec![CipherKind::ChaChaPoly] };
     for (ni, hs) in base.iter().enumerate() {
-        if !thorough && ni % 4 != (ctx.seed % 4) as usize {
-            continue; // quick: a rotating quarter of the 38 base patterns
-        }
         for (ci, cipher) in ciphers.iter().enumerate() {
             let suite = *suites.iter().filter(|s| s.cipher == *cipher && s.dh == DhKind::X25519).nth((ni + ci) % 4).unwrap();
             let spec = SessionSpec::simple(hs.clone(), suite, mix(ctx.seed, 700 + ni as u64));
